@@ -21,12 +21,16 @@ import json
 import logging
 import math
 import os
+import sys
+import time
 from fractions import Fraction as Fr
 
 import numpy as np
 
 from . import common
 from .common import qlit, listlit
+
+sys.set_int_max_str_digits(0)        # exact rationals coming back from Coq can have thousands of digits
 
 C_LIGHT = 299792458.0
 N1 = 1.468
@@ -283,7 +287,7 @@ def gen_raman_low_case(rng):
     p = gen_raman_fiber(rng)
     L = p['length']
     method = rng.choice(['perturbative', 'numerical', 'numerical'])
-    step = rng.choice([L * 1e3 / k for k in (7, 13, 40)] + [1000.0, 2000.0, 500.0])
+    step = rng.choice([L * 1e3 / k for k in (7, 13, 40)] + [5000.0, 2000.0, 500.0, 50.0])
     if rng.random() < 0.4 and p['lumped_losses']:
         k = rng.randint(1, max(1, int(L * 1e3 / step) - 1))          # put one lumped loss exactly on a solver grid point
         p['lumped_losses'][0]['position'] = k * step * 1e-3 if 0 < k * step * 1e-3 < L else p['lumped_losses'][0]['position']
@@ -812,7 +816,7 @@ def drive_raman_low(ctx, case, sim):
         ctx.violation('raman_low_power', f"Raman on ({case['method']}, order {case['order']}, step {case['step']} m), "
                       f"{case['p']:.1e} W/channel: loss {loss} dB vs budget {bud:.9f} dB, deviation {dev:.3e} > "
                       f"Euler bound {bound_db:.3e} + 1e-7", cs, duplicate_positions=dup, dup_explained=False)
-    if case['method'] != 'numerical' or len(zz) > 400:
+    if case['method'] != 'numerical' or len(zz) > 60:      # exact rationals grow by ~100 bits per grid step
         return None, None
     # exact zero-power closed form on the same grid (the solver grid is recomputed here with the same numpy expression)
     zl = listlit([f"({qlit(l['position'] * 1e3)}, {qlit(10 ** (-l['loss'] / 10))})" for l in lumped])
@@ -871,6 +875,9 @@ def drive_raman_pump(ctx, case, sim):
                 solver_spatial_resolution=case['step'])
         si = flat_si(freqs, case['p'])
         with_p = RamanSolver.calculate_stimulated_raman_scattering(si, raman_fiber(p, case['pumps'])).loss_profile[:n]
+        # like for like: with counter-propagating pumps the signals are always integrated by the Euler sweeps of the
+        # iterative algorithm, so the pump-free reference uses the Euler ('numerical') method on the same grid
+        sim.set(flag=True, method='numerical', result_spatial_resolution=10e3, solver_spatial_resolution=case['step'])
         if co:
             ref = RamanSolver.calculate_stimulated_raman_scattering(si, raman_fiber(p, co)).loss_profile[:n]
         else:
@@ -913,10 +920,10 @@ def run(ctx):
         cases = [json.load(open(ctx.replay))['case']]
     else:
         eq0, _ = base_eq()
-        cases += [gen_fiber_case(rng) for _ in range(ctx.scale(320, 5000))]
+        cases += [gen_fiber_case(rng) for _ in range(ctx.scale(260, 5000))]
         cases += [gen_path_case(rng, eq0) for _ in range(ctx.scale(40, 500))]
         cases += [gen_path_case(rng, eq0, max_units=rng.choice([3, 4, 4])) for _ in range(ctx.scale(8, 80))]
-        cases += [gen_merge_case(rng) for _ in range(ctx.scale(150, 2000))]
+        cases += [gen_merge_case(rng) for _ in range(ctx.scale(120, 2000))]
         cases += [gen_euler_case(rng) for _ in range(ctx.scale(60, 600))]
         cases += [gen_raman_low_case(rng) for _ in range(ctx.scale(24, 300))]
         cases += [gen_raman_cmp_case(rng) for _ in range(ctx.scale(6, 60))]
@@ -924,7 +931,12 @@ def run(ctx):
     terms, post = [], []
     with Sim() as sim:
         sim.set()                                   # Raman off, default NLI
+        tkind = {}
+        tlast = time.time()
         for c in cases:
+            now = time.time()
+            tkind[kind if 'kind' in dir() else 'start'] = tkind.get(kind if 'kind' in dir() else 'start', 0.0) + now - tlast
+            tlast = now
             kind = c['kind']
             ctx.count('kind_' + kind)
             cs = strip(c)
@@ -987,7 +999,11 @@ def run(ctx):
     npath = ctx.counters.get('kind_path', 0) + ctx.counters.get('kind_perm', 0)
     if not ctx.replay and ctx.counters.get('path_design_exception', 0) > 0.2 * max(npath, 1):
         raise RuntimeError('more than 20% of the generated line systems could not be designed: generator broken')
+    tkind[kind if 'kind' in dir() else 'start'] = tkind.get(kind if 'kind' in dir() else 'start', 0.0) + time.time() - tlast
+    ctx.extra['python_seconds_by_kind'] = {k: round(v, 2) for k, v in tkind.items()}
+    t_coq = time.time()
     lines = common.coq_eval('C05', 'Prelude Model.Fiber Run.C05', terms, per_file=ctx.scale(10, 40), prelude='Open Scope Q_scope.')
+    ctx.extra['coq_eval_seconds'] = round(time.time() - t_coq, 2)
     for (how, c, impl), model in zip(post, lines):
         if callable(how):
             how(ctx, c, impl, model)
@@ -1012,7 +1028,8 @@ def run(ctx):
         'proved closed form; (b) perturbative (orders 1-4) vs numerical SRS gain after removing each method\'s zero-power attenuation: '
         'tolerance 1e-5 + 3*g*(alpha*dz + dz/L) dB (+ 4.343*(g/4.343)^2 dB for order 1), g = max |SRS gain| in dB; measured on the unchanged '
         'code: worst ratio residual/tolerance ~0.35; (c) counter-propagating pumps (iterative algorithm when co-propagating power exists) '
-        'never lower any channel at any z by more than 1e-6 dB.',
+        'never lower any channel at any z by more than 1e-6 dB relative to the same fibre without them, both integrated by the Euler scheme on '
+        'the same grid (measured minimum on the unchanged code: 0.0 dB).',
         'The raw difference between the numerical and perturbative methods is dominated by the Euler bias (0.018 dB per 80 km at 50 m '
         'steps, 5.4 dB at the RamanParams default solver_spatial_resolution of 10 km): the methods agree only up to that bound.',
     ]
